@@ -131,14 +131,27 @@ def main():
                         except Exception:  # noqa: BLE001
                             pass
         extra = sorted(set(extra))[:5000]
-    allseqs = seqs + extra
+    # hand-picked longer sequences: constructs that need three nested levels (field > prefix > group, boosted groups in fields,
+    # ranges with signed bounds inside operations)
+    deep = [("TERM", "COLUMN", pre, "LPAREN", "TERM", "TERM", "RPAREN") + suf
+            for pre in ("MINUS", "PLUS", "NOT") for suf in ((), ("BOOST",))]
+    deep += [("TERM", "COLUMN", "PLUS", "MINUS", "LPAREN", "TERM", "OR_OP", "TERM", "RPAREN"),
+             ("TERM", "COLUMN", "LPAREN", "MINUS", "LPAREN", "TERM", "TERM", "RPAREN", "RPAREN"),
+             ("TERM", "COLUMN", "LPAREN", "TERM", "TERM", "RPAREN", "BOOST", "BOOST"),
+             ("MINUS", "TERM", "COLUMN", "LPAREN", "TERM", "TERM", "RPAREN"),
+             ("TERM", "COLUMN", "MINUS", "TERM", "COLUMN", "LPAREN", "TERM", "TERM", "RPAREN"),
+             ("TERM", "COLUMN", "LBRACKET", "MINUS", "TERM", "TO", "TERM", "RBRACKET", "AND_OP", "NOT", "TERM"),
+             ("TERM", "AND_OP", "TERM", "OR_OP", "TERM", "AND_OP", "TERM", "TERM", "OR_OP", "TERM"),
+             ("LPAREN", "TERM", "OR_OP", "TERM", "RPAREN", "AND_OP", "NOT", "LPAREN", "TERM", "TERM", "RPAREN", "BOOST")]
+    deep = [d for d in deep if d not in set(seqs)]
+    allseqs = seqs + extra + deep
     res = pmap(check, list(enumerate(allseqs)))
     failures = [f for r in res for f in r[1]]
     rest, hit = classify(failures, p.get("known", []), {"lr_prefers_prefix_over_and_or": lr_prefers_prefix_over_and_or})
     emit({"ok": not rest, "evaluations": sum(r[0] for r in res), "distinct_nontrivial": len([s for s in allseqs if len(s) > 2]),
           "rule": "every token-type sequence of <= %d tokens accepted by the live LALR automaton (DFS over parser configurations) + %d "
-                  "sequences one token beyond the frontier that the reference accepts; two whitespace layouts each (minimal / seeded "
-                  "mixed blanks); distinct = sequences of more than 2 tokens" % (N, len(extra)),
+                  "sequences one token beyond the frontier that the reference accepts + %d hand-picked longer ones; two whitespace layouts each (minimal / seeded "
+                  "mixed blanks); distinct = sequences of more than 2 tokens" % (N, len(extra), len(deep)),
           "bound": "token sequences of length <= %d" % N,
           "samples": [{"types": list(allseqs[len(allseqs) // 2]), "query": join(pieces(allseqs[len(allseqs) // 2], 0), 0, random.Random(0))}],
           "failures": rest[:40], "known": hit, "known_covered": len(failures) - len(rest)})
